@@ -13,6 +13,11 @@ Case format:
           `warp <k>`     all counters / sequence numbers advanced by k (a multiple of
                           cap) — used only by the F12 (ticket ABA) replay
           `final`        `final len=<n> empty=<b> full=<b> [values popped until false]`
+          `expire <tid>` from now on every deadline test of thread <tid>'s waiting forms
+                          succeeds (the ticks of the ticker are scheduler choices)
+           calls `U<int>` = PushWait(v, d), `O` = PopWait(d) with d > 0: a sequence of
+           Push / Pop attempts of the machine, continued or ended by `waitDecide`
+           (Model/C01Wait.lean) after every attempt; result `ret pushw <b>` / `ret popw <v> <b>`
   header  `@ C01 ringc <prov> <pcap> <pfill> <cap> <warp> <fill> T …`  (re-configuration)
            prov 1: tmpl := NewSync(pcap); Push 9001..9000+pfill; r := tmpl (struct copy);
                    r.Init(cap); then as `ring` on r — `final` also observes tmpl
@@ -24,6 +29,7 @@ Case format:
            cycle on it).
 -/
 import Golib.Model.C01Ring
+import Golib.Model.C01Wait
 
 namespace Golib.C01
 open Golib.Proto
@@ -48,6 +54,24 @@ def Ret.show : Ret → String
   | .isEmpty b => s!" ret empty {showBool b}"
   | .isFull b => s!" ret full {showBool b}"
   | .panic => " panic"
+
+/-- driver-level call: (waiting form with a positive duration?, the call it attempts) -/
+def parseDCall (t : String) : Option (Bool × Call) :=
+  if t = "O" then some (true, .pop)
+  else if t.startsWith "U" then (t.drop 1).toString.toInt?.map fun v => (true, Call.push v)
+  else if t = "o" then some (false, .pop)
+  else if t = "l" then some (false, .len)
+  else if t = "e" then some (false, .isEmpty)
+  else if t = "f" then some (false, .isFull)
+  else if t.startsWith "u" then (t.drop 1).toString.toInt?.map fun v => (false, Call.push v)
+  else none
+
+/-- what the driver keeps beside the machine state for the waiting forms -/
+structure Aux where
+  dprogs : List (List (Bool × Call))
+  /-- attempts the thread's current waiting call has already made -/
+  att : List Nat
+  expired : List Bool
 
 def parseCall (t : String) : Option Call :=
   if t = "o" then some .pop
@@ -101,19 +125,61 @@ def isIdle (s : State) (i : Nat) : Bool :=
   | some th => th.pc == .idle
   | none => true
 
-def drainPass (c : Cfg) : Nat → Nat → State → List String → State × List String
-  | 0, _, s, acc => (s, acc)
-  | k + 1, i, s, acc =>
-    if isIdle s i then drainPass c k (i + 1) s acc
-    else
-      let (s1, e) := macroStep c s i
-      drainPass c k (i + 1) s1 (s!"t{i} {showStep c s1 e}" :: acc)
+/-- the waiting call thread `i` is in, if its current call is one: `remaining` = number of
+calls after the current one (length of the machine thread's program before the step) -/
+def Aux.timedCur (a : Aux) (i remaining : Nat) : Option Call :=
+  match a.dprogs[i]? with
+  | some dp =>
+    match dp[dp.length - remaining - 1]? with
+    | some (true, call) => some call
+    | _ => none
+  | none => none
 
-def drain (c : Cfg) : Nat → State → List String → State × Option (List String)
-  | 0, s, _ => (s, none)
-  | f + 1, s, acc =>
-    let (s1, acc1) := drainPass c s.threads.length 0 s acc
-    if acc1.length = acc.length then (s1, some acc1) else drain c f s1 acc1
+def showTimed (call : Call) (res : Option Ret) : String :=
+  match call, res with
+  | .push _, some _ => " ret pushw true"
+  | .push _, none => " ret pushw false"
+  | _, some (.pop v _) => s!" ret popw {v} true"
+  | _, _ => " ret popw 0 false"
+
+/-- one scheduler step of thread `i`: the machine's macro step; when it ends an attempt of
+a waiting form, `waitDecide` says whether the call returns or makes another attempt (the
+thread is then put back at the first access of the same call). -/
+def dStep (c : Cfg) (s : State) (a : Aux) (i : Nat) : State × Aux × String :=
+  let (s1, e) := macroStep c s i
+  match e.ret, s.threads[i]? with
+  | some r, some th =>
+    match a.timedCur i th.prog.length with
+    | some call =>
+      let k := match a.att[i]? with | some k => k | none => 0
+      let ex := match a.expired[i]? with | some b => b | none => false
+      let outcome : Option Ret :=
+        match r with
+        | .push true => some r
+        | .pop _ true => some r
+        | _ => none
+      match waitDecide (15 : Int) k outcome ex with
+      | none =>
+        let s2 := { s1 with threads := s1.threads.set i { pc := start call, prog := th.prog } }
+        (s2, { a with att := a.att.set i (k + 1) }, e.acc.show ++ s!" len={lenNow c s2}")
+      | some res =>
+        (s1, { a with att := a.att.set i 0 }, e.acc.show ++ showTimed call res ++ s!" len={lenNow c s1}")
+    | none => (s1, a, showStep c s1 e)
+  | _, _ => (s1, a, showStep c s1 e)
+
+def drainPass (c : Cfg) : Nat → Nat → State → Aux → List String → State × Aux × List String
+  | 0, _, s, a, acc => (s, a, acc)
+  | k + 1, i, s, a, acc =>
+    if isIdle s i then drainPass c k (i + 1) s a acc
+    else
+      let (s1, a1, str) := dStep c s a i
+      drainPass c k (i + 1) s1 a1 (s!"t{i} {str}" :: acc)
+
+def drain (c : Cfg) : Nat → State → Aux → List String → State × Aux × Option (List String)
+  | 0, s, a, _ => (s, a, none)
+  | f + 1, s, a, acc =>
+    let (s1, a1, acc1) := drainPass c s.threads.length 0 s a acc
+    if acc1.length = acc.length then (s1, a1, some acc1) else drain c f s1 a1 acc1
 
 def allIdle (s : State) : Bool := s.threads.all fun th => th.pc == .idle
 
@@ -144,37 +210,43 @@ def fillUp (c : Cfg) : Nat → Nat → State → State
     | some (s1, _) => fillUp c k (v + 1) { s1 with threads := s.threads }
     | none => s
 
-def runOps (c : Cfg) (suffix : String) : State → List String → List String
-  | _, [] => []
-  | s, l :: ls =>
+def runOps (c : Cfg) (suffix : String) : State → Aux → List String → List String
+  | _, _, [] => []
+  | s, a, l :: ls =>
     match toks l with
     | ["step", t] =>
       match t.toNat? with
       | some i =>
-        let (s1, e) := macroStep c s i
-        showStep c s1 e :: runOps c suffix s1 ls
-      | none => "bad-op" :: runOps c suffix s ls
+        let (s1, a1, str) := dStep c s a i
+        str :: runOps c suffix s1 a1 ls
+      | none => "bad-op" :: runOps c suffix s a ls
     | ["drain"] =>
-      match drain c 400 s [] with
-      | (s1, some acc) =>
-        (if acc.isEmpty then "quiet" else " ; ".intercalate acc.reverse) :: runOps c suffix s1 ls
-      | (s1, none) => "drain-timeout" :: runOps c suffix s1 ls
+      match drain c 400 s a [] with
+      | (s1, a1, some acc) =>
+        (if acc.isEmpty then "quiet" else " ; ".intercalate acc.reverse) :: runOps c suffix s1 a1 ls
+      | (s1, a1, none) => "drain-timeout" :: runOps c suffix s1 a1 ls
     | ["warp", k] =>
       match k.toNat? with
       | some k =>
         if c.cap ≠ 0 ∧ k % c.cap = 0 then
           let s1 := s.shift c k
-          s!"warped len={lenNow c s1}" :: runOps c suffix s1 ls
-        else "bad-op" :: runOps c suffix s ls
-      | none => "bad-op" :: runOps c suffix s ls
+          s!"warped len={lenNow c s1}" :: runOps c suffix s1 a ls
+        else "bad-op" :: runOps c suffix s a ls
+      | none => "bad-op" :: runOps c suffix s a ls
+    | ["expire", t] =>
+      match t.toNat? with
+      | some i =>
+        if i ≤ 65536 then "expired" :: runOps c suffix s { a with expired := a.expired.set i true } ls
+        else "bad-op" :: runOps c suffix s a ls
+      | none => "bad-op" :: runOps c suffix s a ls
     | ["final"] =>
       (if allIdle s then
         let n := lenNow c s
         let e := s.head == s.tail
         let f := c.sub s.tail s.head == c.cap
         s!"final len={n} empty={showBool e} full={showBool f} {showInts (popAll c (c.cap + 2) s [])}{suffix}"
-       else "busy") :: runOps c suffix s ls
-    | _ => "bad-op" :: runOps c suffix s ls
+       else "busy") :: runOps c suffix s a ls
+    | _ => "bad-op" :: runOps c suffix s a ls
 
 def bad (ops : List String) : List String := "bad-op" :: ops.map fun _ => "bad-op"
 
@@ -183,14 +255,16 @@ def runRingCase (suffix : String) (hdr : List String) (ops : List String) : List
   | capS :: warpS :: fillS :: rest =>
     match capS.toInt?, warpS.toNat?, fillS.toNat?, splitProgs rest with
     | some capreq, some k, some fill, some groups =>
-      match groups.mapM (fun g => g.mapM parseCall) with
-      | some progs =>
+      match groups.mapM (fun g => g.mapM parseDCall) with
+      | some dprogs =>
+        let progs := dprogs.map fun g => g.map (·.2)
+        let aux : Aux := { dprogs := dprogs, att := dprogs.map fun _ => 0, expired := dprogs.map fun _ => false }
         match initCap capreq with
         | none => "panic" :: ops.map fun _ => "dead"
         | some cap =>
           let c := conc32 cap
           let s0 := fillUp c fill 1 (initAt c k [])
-          "ok" :: runOps c suffix { s0 with threads := progs.map mkThread } ops
+          "ok" :: runOps c suffix { s0 with threads := progs.map mkThread } aux ops
       | none => bad ops
     | _, _, _, _ => bad ops
   | _ => bad ops
